@@ -58,7 +58,7 @@ out.append("\n%d fix commits (%d later reverted). Hook commit: `61094de60` (guar
 T_FIXES = "\n".join(out); out = []
 # seeded
 out.append("\n### 9.7 Independently seeded changes and which checks catch them\n")
-out.append("Each change was written by a fresh sub-agent that saw only the property text and a scratch worktree (nothing from /verif), and was confirmed by `tools/confirm_seed.py` (patch applies, library builds, the 113 stable tests pass, the demonstration exits 0 without and non-zero with the patch). `tools/mutant.py <patch> <ID> quick` then ran the registered check against a patched private copy.\n")
+out.append("Each change was written by a fresh sub-agent that saw only the property text and a scratch worktree (nothing from /verif), and was confirmed by `tools/confirm_seed.py` (patch applies, library builds, the 113 stable tests pass, the demonstration exits 0 without and non-zero with the patch; for the 19 round-3 seeds confirmed by `tools/confirm_group.py` the suite was run once with all 19 patches applied together - every stable test passed - and the demonstration per seed; C11d's seeder reported its own patched-suite run). `tools/mutant.py <patch> <ID> quick` then ran the registered check against a patched private copy; `seeded/detection_matrix.txt` is the last run of all 80 seeds against the current quick tiers. Three patches (C11c, C13a, C13d) were rebased because later `fix:` commits touched the same lines (originals kept next to them).\n")
 out.append("| seed | breaks | needs | confirmed | caught by (quick unless stated) | first finding key |")
 out.append("|---|---|---|---|---|---|")
 sd = R + "/seeded"
